@@ -94,6 +94,26 @@ def svc_class(r):
     return ",".join(x for x in (head, "ev:" + kinds, where) if x)
 
 
+def _cr_fields(res):
+    return dict(x.split("=", 1) for x in res.split(";") if "=" in x)
+
+
+def ctlreg_nontrivial(tok, res):
+    # a message reached the server, or an answer was written to the client
+    if not res.startswith("ev="):
+        return tok[0] == "witness"
+    return tok[0] in ("deliver", "dup", "forge") or _cr_fields(res).get("ev", "-") != "-"
+
+
+def ctlreg_class(r):
+    if not r.startswith("ev="):
+        return r[:10]
+    f = _cr_fields(r)
+    kinds = "".join(sorted({c for part in f["ev"].split(",") if ":" in part for c in part.split(":")[1]})) or "-"
+    queued = "answers-queued" if f.get("q", "-") != "-" else "queue-empty"
+    return "wire:%s,%s" % (kinds, queued)
+
+
 def health_nontrivial(tok, res):
     return tok[0] == "hprobe" and ("F" in res) or tok[0] == "htcp"
 
@@ -101,7 +121,7 @@ def health_nontrivial(tok, res):
 PROP = {
         "level": "proof",
         "gens": ["SessFacts"],
-        "extra_targets": ["Frp.Props.C19Visitors", "Frp.Props.C19Reload"],
+        "extra_targets": ["Frp.Props.C19Visitors", "Frp.Props.C19Reload", "Frp.Props.C19Ctl"],
         "theorems": [
             "Frp.C19.health_consecutive_witness",
             "Frp.C19.health_not_ConsecutiveFull",
@@ -211,6 +231,32 @@ PROP = {
             "Frp.C19.vm_closed_quiet_partial",
             "Frp.C19.model_vKept_fixed",
             "Frp.C19.model_vClosedQuiet_fixed",
+            # round 4: the Control's handlers between connection and manager, the server's table, all reply schedules
+            # (Props/C19Ctl.lean over Model/CtlReg.lean)
+            "Frp.C19.reply_outside_wait_silent",
+            "Frp.C19.reply_unconfigured_silent",
+            "Frp.C19.ctl_sync_step",
+            "Frp.C19.ctl_sync_run",
+            "Frp.C19.running_never_closed",
+            "Frp.C19.close_leaves_not_running",
+            "Frp.C19.unconfigured_closed",
+            "Frp.C19.reg_inv_step",
+            "Frp.C19.reg_inv_run",
+            "Frp.C19.quiescent_held_iff_running",
+            "Frp.C19.own_reply_truthful",
+            "Frp.C19.flap_unanswered_converges",
+            "Frp.C19.resend_converges",
+            "Frp.C19.stale_reply_witness",
+            "Frp.C19.truthful_needed",
+            "Frp.C19.closing_glue_witness",
+            "Frp.C19.handleResp_eq_act",
+            "Frp.C19.srvRecvAll_held",
+            "Frp.C19.srvRecv_other",
+            "Frp.C19.model_syncObsOK",
+            "Frp.C19.model_tableObsOK",
+            "Frp.C19.converge_registers",
+            "Frp.C19.converge_unhealthy_withdrawn",
+            "Frp.C19.remove_releases",
         ],
         "engines": [
             {"name": "health", "quick_n": 2200, "thorough_n": 9000, "thorough_seeds": 4,
@@ -223,6 +269,9 @@ PROP = {
              "nontrivial": vmgr_nontrivial, "result_class": vmgr_class, "search_seeds": 2, "search_n": 1500},
             {"name": "svc", "quick_n": 280, "thorough_n": 900, "thorough_seeds": 3,
              "nontrivial": svc_nontrivial, "result_class": svc_class, "search_seeds": 2, "search_n": 280},
+            # reruns 1: the known finding (op witness) shows on every run
+            {"name": "ctlreg", "quick_n": 900, "thorough_n": 3000, "thorough_seeds": 4, "reruns": 1,
+             "nontrivial": ctlreg_nontrivial, "result_class": ctlreg_class, "search_seeds": 2, "search_n": 600},
         ],
         "rule": "health engine: probe-outcome histories against the real health.Monitor (n = number of probes); non-trivial = "
                 "a history on which the failed callback fired. client engine: reload / tick / reply / health / work-connection "
@@ -256,13 +305,22 @@ PROP = {
                 "a dial hangs and between two attempts; proxies are field vectors (reloads add / remove / reorder / duplicate / "
                 "change exactly one field; the file spells out only what the vector sets), up to three stcp visitors bind real loopback ports which are probed after every op; "
                 "non-trivial = a message reached the server or wrappers wait on a dead "
-                "session; distinct = distinct (op line, result) pairs",
+                "session. ctlreg engine: the real client.Control (dispatcher, registered handlers, transporter, proxy.Manager, "
+                "wrappers) on a net.Pipe control connection whose other end is a scripted server that keeps the table a real "
+                "server keeps (NewProxy accepted - the op's decision - minus CloseProxy; NewProxy for a held name refused) and "
+                "QUEUES its answers: the op sequence delivers them in order, out of order, twice, never, or forges one, at any "
+                "moment relative to worker iterations (virtual clock around the 20 s / 30 s deadlines), health flaps and reloads "
+                "(add / remove / change / keep / duplicate), with episodes in which a second request for a name goes out while "
+                "the first is unanswered; after every op: what reached the server per name in wire order, GetAllProxyStatus, the "
+                "server's table, the queue; non-trivial = a message reached the server or an answer was written to the client; "
+                "distinct = distinct (op line, result) pairs",
         "trusted": COMMON_TRUST + [
-            "models Frp/Model/Health.lean, Wrapper.lean, WrapperConc.lean, Reconcile.lean, VisitorMgr.lean written by hand (Rereg.lean is "
+            "models Frp/Model/Health.lean, Wrapper.lean, WrapperConc.lean, Reconcile.lean, VisitorMgr.lean, CtlReg.lean written by hand (Rereg.lean is "
             "C14's, used read-only); tied by the engines health "
             "(real health.Monitor + scripted HTTP/TCP backend), client (real proxy.Manager/Wrapper, "
             "capturing MessageTransporter), vmgr (real visitor.Manager + real visitors + real sockets) and svc (real "
-            "client.Service + admin API + scripted server behind ServiceOptions.ConnectorCreator)",
+            "client.Service + admin API + scripted server behind ServiceOptions.ConnectorCreator) and ctlreg (real client.Control "
+            "from client.NewControl on a pipe + scripted server with queued answers)",
             "the `variant` of a configuration in the models is an injective code of its field values, built and decoded by "
             "the harness (eng_client_fields.go, eng_vmgr.go: canonical = fields a type does not have are 0)",
             "vmgr: visitor.Manager.checkInterval (10 s, no setter) is overwritten once through reflect/unsafe right after "
@@ -279,6 +337,10 @@ PROP = {
             "quiescence = every wrapper has left status new (and wait start on a live session), every Dispatcher.sendLoop is "
             "parked (runtime.Stack), the scripted server has recorded every byte the client wrote and the client has taken "
             "every reply; the `early` parameter of Rereg is read from the source by translate/gen_sessfacts.go on every run",
+            "ctlreg: Control.pm is read through reflect/unsafe (VerifWrapper / VerifKick / VerifHealth as in engine client); "
+            "quiescence = ONE runtime.Stack snapshot in which every wrapper worker and the dispatcher's send loop are parked in "
+            "their selects, the dispatcher's read loop and the scripted server are blocked reading the pipe; the server's table "
+            "and the answer queue are the harness' (answers produced during one op are queued by name, then arrival)",
             "verif hooks client/proxy/verif_export.go, client/health/verif_export.go, client/visitor/verif_export.go "
             "(timing setters, one-iteration wake-up of the wrapper worker through its own notify channel, health callbacks, dumps)",
         ],
@@ -303,6 +365,15 @@ PROP = {
             "for the code as it is vm_reload_idempotent (lists without duplicated names) and vm_closed_quiet_partial (no iteration "
             "after Close); proposed repairs hooks/C19-fix-visitor-dup-names.patch, hooks/C19-fix-visitor-pass-after-close.patch. "
             "A failure of another clause on a list with a duplicated name would be suppressed by the first signature as well",
+            "ctlreg: the clause `server's table = reported status` (running => held; start error / check failed / new / not "
+            "configured => not held) is proved, and evaluated per name, for schedules whose answers agree with the server's table "
+            "whenever they meet a waiting wrapper (reg_inv_run); a delivery that does not - the answer to an earlier request "
+            "contradicting the server's decision about the later one - takes the name out of this clause until its next "
+            "CloseProxy (the divergence is real: KNOWN finding C19-stale-newproxyresp-applied-to-later-request, reproduced by op "
+            "`witness stale` on every run and suppressed by its signature); the clause `status and wire in step` (the last message "
+            "about a running / waiting proxy is NewProxy, about a withdrawn / removed one CloseProxy) is evaluated on every name "
+            "after every op without exception. The scripted server processes the client's messages at once (a real server's "
+            "processing delay is part of the answer's delay); work connections, heartbeats and visitors are not driven here",
             "the clause `unchanged entries keep their visitor object` is evaluated per name only where ALL entries of the name are "
             "the same, in the same order, in the old and the new list (which of several entries of a name is the configured one "
             "is not fixed by the property)",
@@ -322,15 +393,17 @@ PROP = {
     }
 
 META = {
-        "engine": "lean+harness(health,client,vmgr,svc)",
+        "engine": "lean+harness(health,client,vmgr,svc,ctlreg)",
         "design_ref": "DESIGN.md §6 C19, §7 item 8",
         "technique": "Lean 4 models of health counting, wrapper phase machine (atomic and small-step with pw.mu), reload diff, visitor "
-                     "manager with its keep-alive loop and bind addresses, and (C14's) service re-login; "
+                     "manager with its keep-alive loop and bind addresses, (C14's) service re-login, and the Control's reply handler with the "
+                     "server's table and every reply schedule; "
                      "theorems by induction over all probe histories / event sequences / reloads / goroutine schedules / keep-alive "
                      "iterations / session histories; differential "
                      "correspondence with the real health.Monitor, proxy.Manager/Wrapper (overlapping operations with a "
                      "message held in the transporter; configurations as field vectors over every field), visitor.Manager with real "
-                     "visitors and sockets, and client.Service behind its admin API; property predicates evaluated on the "
+                     "visitors and sockets, client.Service behind its admin API, and client.Control against a scripted server that queues, "
+                     "reorders, duplicates and forges its answers; property predicates evaluated on the "
                      "implementation's answers",
         "text": "Proof (two findings, both repaired in /repo: 75a9f5a and eab68f8). Health: the pinned monitor never reset failedTimes, so "
                 "withdrawal happened after maxFailed failures in total, not in a row (kernel-checked witness, reproduced on the real "
@@ -365,7 +438,19 @@ META = {
                 "receives one NewProxy per configured name (reconnect_runs_last_loaded, relogin_registers_last_loaded; tied to where "
                 "loginFunc reads the configuration by reconnect_code). Before fix eab68f8 a name configured twice with different contents was stopped and "
                 "re-registered on every identical reload (witness reload_dup_witness about updateAllOld, reproduced on the real "
-                "Manager before the fix).",
+                "Manager before the fix). Control and server (Part C): a NewProxyResp reaches the wrapper through the dispatcher's handler, "
+                "which sends nothing whatever StartProxy returns; for EVERY schedule of worker iterations, health changes, reloads "
+                "and answers - late, duplicated, reordered, for names that are gone, success after error - an answer that meets a "
+                "wrapper that is not waiting changes and sends nothing (reply_outside_wait_silent), status and wire stay in step and "
+                "the last message about a proxy reported running is NewProxy: the client never closes a proxy it reports running "
+                "(ctl_sync_run, running_never_closed); for every schedule whose answers agree with the server's table when they "
+                "meet a waiting wrapper the table is the status - running => held, start error / check failed / not configured => "
+                "not held - and at quiescence held <=> running (reg_inv_run, quiescent_held_iff_running; the two-requests-"
+                "outstanding schedules flap_unanswered_converges, resend_converges). One open finding: the answer carries only "
+                "the name, so the answer to an earlier request is applied to a later one; if the server decided differently the "
+                "client reports running for a proxy the server does not hold, for good (stale_reply_witness, reproduced on the "
+                "real Control; KNOWN_FINDINGS). A handler that closes the proxy on every start error breaks both clauses on a "
+                "duplicated answer (closing_glue_witness).",
         "note": "Trusted: Lean kernel; the hand-written models and the correspondence harness. Not covered: real-time behaviour beyond "
                 "two scenarios, TCP probe timeouts, preemption points of the wrapper other than the "
                 "hand-over of a message to the transporter, visitors added or changed during an outage at service level, wall-clock period of the "
